@@ -23,7 +23,7 @@ use crate::internal::sync::{Arc, AtomicBool, AtomicU8, Ordering};
 use std::task::{Context, Poll};
 use std::time::Duration;
 
-use crate::internal::rendezvous::WAITING;
+use crate::internal::rendezvous::{DISCONNECTED, WAITING};
 
 // --- Constructors ---------------------------------------------------------
 
@@ -289,7 +289,8 @@ impl<T: Send> Drop for RendezvousSyncReceiver<T> {
 impl<T: Send> RendezvousAsyncSender<T> {
   /// Sends a value, resolving once a receiver takes it or the channel closes.
   pub fn send(&self, item: T) -> SendFuture<'_, T> {
-    SendFuture::new(&self.shared, item)
+    let fut = SendFuture::new(&self.shared, item);
+    if self.closed.load(Ordering::Relaxed) { fut.rejected() } else { fut }
   }
 
   /// Attempts to hand off to an already-waiting receiver without awaiting.
@@ -375,7 +376,8 @@ impl<T: Send> RendezvousAsyncReceiver<T> {
   /// Receives a value, resolving once a sender hands one off or the channel
   /// disconnects.
   pub fn recv(&self) -> RecvFuture<'_, T> {
-    RecvFuture::new(&self.shared)
+    let fut = RecvFuture::new(&self.shared);
+    if self.closed.load(Ordering::Relaxed) { fut.rejected() } else { fut }
   }
 
   /// Attempts to take from an already-waiting sender without awaiting.
@@ -482,6 +484,14 @@ impl<'a, T: Send> SendFuture<'a, T> {
       _pin: PhantomPinned,
     }
   }
+
+  /// For an operation started on a handle that was already closed: the first poll takes the
+  /// regular terminal path and resolves with the closed/disconnected error.
+  fn rejected(mut self) -> Self {
+    self.state = AtomicU8::new(DISCONNECTED);
+    self.registered = true;
+    self
+  }
 }
 
 impl<'a, T: Send> Future for SendFuture<'a, T> {
@@ -530,6 +540,14 @@ impl<'a, T: Send> RecvFuture<'a, T> {
       registered: false,
       _pin: PhantomPinned,
     }
+  }
+
+  /// For an operation started on a handle that was already closed: the first poll takes the
+  /// regular terminal path and resolves with the closed/disconnected error.
+  fn rejected(mut self) -> Self {
+    self.state = AtomicU8::new(DISCONNECTED);
+    self.registered = true;
+    self
   }
 }
 
